@@ -7,8 +7,8 @@ import dsgcase, procdrive
 ID = 'C17'
 RULE = ('G-sel graphs decorated with 1-4 metric nodes of every direction / reference / declared-type combination on permanent '
         'and conditional leaves; objectives, constraints and the error for an undeclared ambiguous metric are compared with '
-        'classify_all; DSGEvaluator.evaluate is run on every decodable architecture (<= 12 vectors) with complete, partial and '
-        'NaN evaluator maps and compared with the model\'s evaluate (values as exact rationals, NaN by isnan); non-trivial = at '
+        'classify_all; DSGEvaluator.evaluate is run on every decodable architecture (<= 12 vectors) with complete, partial, '
+        'NaN and all-design-space (values also for absent metric nodes) evaluator maps and compared with the model\'s evaluate (values as exact rationals, NaN by isnan); non-trivial = at '
         'least one metric with a direction; distinct = distinct graph')
 TRUSTED = ['metric names are M<id> so that name order = id order (in 30% of the cases with two or more metrics two of them share one name and specification; their mutual order is then not compared); the evaluator stub returns the generated value map']
 PARTIAL = []
@@ -103,9 +103,13 @@ def run_case(case):
                 b.dsg.set_metric_value(b.node[i], 7.75 + i)
         tags.append('inherited-values')
 
+    return_all = [False]
+
     class Ev(DSGEvaluator):
         def _evaluate(self, dsg, metric_nodes):
-            return {b.node[k]: v for k, v in valmap.items() if b.node[k] in metric_nodes}
+            # 'all': a table / surrogate evaluator that returns a value for every metric of the design space, also for those
+            # absent from this architecture (an absent constraint is still reported at its reference value)
+            return {b.node[k]: v for k, v in valmap.items() if return_all[0] or b.node[k] in metric_nodes}
     try:
         ev = Ev(b.dsg, encoder_type=SelChoiceEncoderType.COMPLETE)
         objs = [b.ident[o.node] for o in ev.objectives]
@@ -146,8 +150,9 @@ def run_case(case):
         except Exception as e:
             continue
         nodes = sorted(b.ident[n] for n in inst.graph.nodes)
-        mode = rng.choice(['complete', 'partial', 'nan'])
-        valmap = {}
+        mode = rng.choice(['complete', 'partial', 'nan', 'all'])
+        return_all[0] = mode == 'all'
+        valmap.clear()
         for i in mids:
             if mode == 'partial' and rng.random() < 0.5:
                 continue
